@@ -100,18 +100,23 @@ fn feed(g: &mut Generator, w: &[u8], form: usize) {
 fn thorough() -> bool {
     std::env::var("MC_TIER").map(|v| v == "thorough").unwrap_or(false)
 }
+/// tiny corpus for the UB monitor (miri is 100-1000x slower than native code)
+fn tiny() -> bool {
+    std::env::var("MC_TIER").map(|v| v == "miri").unwrap_or(false)
+}
 
 fn section_generator(out: &mut Out) {
     out.section("generator");
     let alpha = corpus::gen_alphabet();
     let counts = [1usize, 31, 32, 33, 64, 65];
-    let zps = [0u64, 5, (192u64 << 10) - 300, (192u64 << 29) + 1 - 448, (192u64 << 30) - 448, (192u64 << 30) - 440];
+    let zps_all = [0u64, 5, (192u64 << 10) - 300, (192u64 << 29) + 1 - 448, (192u64 << 30) - 448, (192u64 << 30) - 440];
+    let zps: &[u64] = if tiny() { &zps_all[4..5] } else { &zps_all[..] };
     for (zi, &zp) in zps.iter().enumerate() {
         for dirty in [false, true] {
             if dirty && zi % 2 == 1 && !thorough() {
                 continue;
             }
-            for k1 in (0..alpha.len()).step_by(if zp == 0 || thorough() { 1 } else { 3 }) {
+            for k1 in (0..alpha.len()).step_by(if tiny() { 9 } else if zp == 0 || thorough() { 1 } else { 3 }) {
                 let w1 = &alpha[k1].1;
                 let mut g = start(zp, dirty);
                 let mut r = Ctph::new(zp);
@@ -150,7 +155,7 @@ fn section_generator(out: &mut Out) {
         }
     }
     // borders with and without the correct hint
-    for n in 0..=30u32 {
+    for n in (0..=30u32).step_by(if tiny() { 10 } else { 1 }) {
         for delta in [-1i64, 0, 1] {
             let total = ((192u64 << n) as i64 + delta) as u64;
             for k in [n as usize, (n as usize + 1).min(30), 30, 0] {
@@ -281,7 +286,7 @@ fn section_parser(out: &mut Out) {
             out.line(line);
         }};
     }
-    for t in texts() {
+    for t in texts().into_iter().step_by(if tiny() { 97 } else { 1 }) {
         let (n1, n2) = raw_lengths(&t).unwrap_or((0, 0));
         // tag: which capacities the raw text exceeds
         let tag = format!("OVF{}{}{}", if n1 > 64 { "1" } else { "-" }, if n2 > 32 { "s" } else { "-" }, if n2 > 64 { "l" } else { "-" });
@@ -326,7 +331,7 @@ fn contents() -> Vec<(u8, Vec<u8>, Vec<u8>)> {
 
 fn section_conversions(out: &mut Out) {
     out.section("conversions");
-    for (log, a, b) in contents() {
+    for (log, a, b) in contents().into_iter().step_by(if tiny() { 61 } else { 1 }) {
         let long = LongRawFuzzyHash::new_from_internals_near_raw(log, &a, &b);
         let ln = long.normalize();
         let mut in_place = long;
@@ -389,8 +394,8 @@ fn section_scores(out: &mut Out) {
         (corpus::ramp(7, 0), vec![], corpus::ramp(8, 0), vec![]),
         (x.clone(), y.clone(), corpus::ramp(12, 50), corpus::ramp(9, 44)),
     ];
-    for la in 0..31u8 {
-        for lb in 0..31u8 {
+    for la in (0..31u8).step_by(if tiny() { 7 } else { 1 }) {
+        for lb in (0..31u8).step_by(if tiny() { 5 } else { 1 }) {
             for (k, t) in tpl.iter().enumerate() {
                 let a = LongFuzzyHash::new_from_internals_near_raw(la, &t.0, &t.1);
                 let b = LongFuzzyHash::new_from_internals_near_raw(lb, &t.2, &t.3);
